@@ -410,11 +410,25 @@ func observeGets(call *scen.Call, n int) string {
 			out[i] = res{v, err}
 		}(i)
 	}
-	wg.Wait()
+	// every library call is bounded: a Get on a completed future that blocks is a finding, not a stall of the harness
+	all := make(chan struct{})
+	go func() { wg.Wait(); close(all) }()
+	if r, sig := scen.Await(all, scen.B); r == scen.Hung {
+		return fmt.Sprintf("%d concurrent Get calls on the completed future did not all return within 2x%v: %s", n, scen.B, sig)
+	}
 	if !call.Async.Done() {
 		return "Done() is false after the future completed"
 	}
-	v0, e0 := call.AsyncGet()
+	var v0 proto.Message
+	var e0 error
+	one := make(chan struct{})
+	go func() { v0, e0 = call.AsyncGet(); close(one) }()
+	if r, sig := scen.Await(one, scen.B); r == scen.Hung {
+		return fmt.Sprintf("a further Get on the completed future (after Done() had reported true) did not return within 2x%v: %s", scen.B, sig)
+	}
+	if !call.Async.Done() {
+		return "Done() is false after it had reported true and Get had returned"
+	}
 	for i, o := range out {
 		if (o.err == nil) != (e0 == nil) || (o.err != nil && o.err.Error() != e0.Error()) {
 			return fmt.Sprintf("Get #%d returned error %v, another Get returned %v", i, o.err, e0)
